@@ -59,6 +59,7 @@ CONSTANTS Mode,        \* "grid": exhaustive product / "walk": long random expre
           TBlobLens,   \* lengths of typed constants (DW_OP_const_type), 0..255
           MaxLen,      \* grid: operations per level; walk: operations in total
           MaxDepth,    \* nesting depth of entry-value blocks
+          WrapLen,     \* grid: longest flat sequence that gets wrapped into an entry-value block
           NestSteps,   \* grid: writer steps of the deep-nesting part
           NestForms    \* <<entry-value opcode, padding groups of its length field>>
 
@@ -300,7 +301,7 @@ AppendArgs(st, code) == CASE st = "walk" -> Tuples(KindsOf(code), ctx, FALSE)
 \* walk: wrapping and handing over are offered only now and then (the simulator picks among the enabled
 \* actions uniformly, not among the successors), so that expressions grow long and nest at several places
 CanWrap == IF Mode = "walk" THEN Depth(expr) < MaxDepth /\ Steps(expr) < MaxLen /\ (Steps(expr) % 7) = 3
-           ELSE \/ Depth(expr) = 0 /\ MaxDepth > 0 /\ AllSeq(expr, ctx)
+           ELSE \/ Depth(expr) = 0 /\ MaxDepth > 0 /\ Len(expr) <= WrapLen /\ AllSeq(expr, ctx)
                 \/ Depth(expr) >= 1 /\ Depth(expr) < MaxDepth /\ Tiny(expr, ctx) /\ Steps(expr) < NestSteps
 
 (* ======================================================================= *)
@@ -429,24 +430,24 @@ Terminates == [][(phase = "read" /\ phase' = "read") => Variant(rd') < Variant(r
 
 (* ======================================================================= *)
 (* (G) Emission: the bytes and what a correct parser returns               *)
-(* op = <<opcode, name, args, offset>>; arg = [d, s] | [g, s] | [b] | [e]   *)
+(* op = <<opcode, name, args, offset>>; arg = [d, s] | [g, s] | [b] | [e, n = byte length of the block] *)
 (* ======================================================================= *)
-RECURSIVE Present(_)
-PresentArg(k, a) == CASE k = "expr" -> <<[e |-> Present(a.e)]>>
-                      [] k \in {"blk", "tblob"} -> <<[b |-> a.b]>>
-                      [] k = "wasm" -> <<[d |-> <<a.wk>>, s |-> FALSE], a.i>>
-                      [] OTHER -> <<a>>
-Present(out) == IF out = <<>> THEN <<>>
-                ELSE LET o == Head(out)   ks == KindsOf(o.code) IN
-                     <<<<o.code, NameOf(o.code), Flat([j \in 1..Len(ks) |-> PresentArg(ks[j], o.args[j])]), o.off>>>>
-                     \o Present(Tail(out))
+RECURSIVE Present(_, _)
+PresentArg(k, a, c) == CASE k = "expr" -> <<[e |-> Present(a.e, c), n |-> Len(EncExpr(a.e, c))]>>
+                         [] k \in {"blk", "tblob"} -> <<[b |-> a.b]>>
+                         [] k = "wasm" -> <<[d |-> <<a.wk>>, s |-> FALSE], a.i>>
+                         [] OTHER -> <<a>>
+Present(out, c) == IF out = <<>> THEN <<>>
+                   ELSE LET o == Head(out)   ks == KindsOf(o.code) IN
+                        <<<<o.code, NameOf(o.code), Flat([j \in 1..Len(ks) |-> PresentArg(ks[j], o.args[j], c)]), o.off>>>>
+                        \o Present(Tail(out), c)
 Tag == IF expr = <<>> THEN "empty" ELSE IF Depth(expr) > 0 THEN "nest" ELSE IF Len(expr) > 1 THEN "seq" ELSE "op"
 NameTable == [names |-> {<<c, NameOf(c)>> : c \in Codes}, markers |-> {Markers[i] : i \in 1..Len(Markers)}]
 Emit ==
   /\ (phase = "write" /\ expr = <<>>) => CSVWrite("%1$s", <<ToJson([t |-> "table", tab |-> NameTable])>>, IOEnv.OUT)
   /\ phase = "done" =>
        CSVWrite("%1$s", <<ToJson([t |-> Tag, c |-> <<ctx.asz, ctx.osz, IF ctx.le THEN 1 ELSE 0>>,
-                                  b |-> rd.bytes, x |-> Present(Annot(expr, ctx))])>>, IOEnv.OUT)
+                                  b |-> rd.bytes, x |-> Present(Annot(expr, ctx), ctx)])>>, IOEnv.OUT)
 
 (* ======================================================================= *)
 (* Configurations (cfg files select these)                                 *)
@@ -456,6 +457,7 @@ CtxOf(full) == {[asz |-> a, osz |-> o, le |-> l, full |-> full \/ (a = 4 /\ o = 
 CtxQuick == CtxOf(FALSE)
 CtxAll == CtxOf(TRUE)
 Bytes5 == {0, 1, 127, 128, 255}
+Bytes7 == {0, 1, 85, 127, 128, 254, 255}
 Bytes256 == 0..255
 Groups5 == {0, 1, 63, 64, 127}
 Groups8 == {0, 1, 2, 63, 64, 65, 126, 127}
